@@ -381,7 +381,8 @@ def build_tree(sp):
             for t in tys:
                 for ci, c in enumerate(cvs):
                     path = b.modpath + [b.raw]
-                    tdisp = type_display(TYPE_PALETTE[t]) if t is not None else None
+                    traw = (TYPE_PALETTE[t] if isinstance(t, int) else t) if t is not None else None
+                    tdisp = type_display(traw) if t is not None else None
                     if c is not None and t is not None:
                         path = path + [tdisp]
                     _, nodes = descend(path)
@@ -389,7 +390,9 @@ def build_tree(sp):
                     leaf = MNode("leaf", disp, disp)
                     leaf.bench = b
                     leaf.opts = b.opts
-                    leaf.ty = TYPE_PALETTE[t] if t is not None else None
+                    leaf.ty = traw
+                    if b.args:
+                        leaf.args = [(i, arg_render(b.argtype, a)) for i, a in enumerate(b.args)]
                     leaf.const = c
                     leaf.const_index = ci
                     leaf.inst_index = inst
